@@ -375,7 +375,7 @@ impl Check for C18 {
     }
 
     fn run(&self, ctx: &mut Ctx) -> Result<(), MachineryError> {
-        let max_prefix = ctx.tier.pick(3usize, 4usize);
+        let max_prefix = ctx.tier.pick(3usize, 5usize);
         let pre = prefixes(max_prefix);
         let corp = corpus();
         ctx.rule = format!(
